@@ -184,13 +184,15 @@ def mutants(seed, args):
                 print(f"mutant {name}: not targeted -- {meta['not_targeted'][:150]}")
                 continue
             expect = meta.get("caught_by") or [meta["property"]]
+            if meta["property"] == "-" and not meta.get("caught_by"):
+                expect = []  # a refactor names no property: every check is a cross check
             also = set(meta.get("also_breaks", []))
             if meta.get("expect_silent"):
                 # a property-preserving change: nothing may fire
                 row = {"mutant": name, "property": meta["property"], "results": {}, "silent": True}
-                for pid in (CLAIMED if matrix else expect):
+                for pid in (CLAIMED if matrix or not expect else expect):
                     runs = None
-                    if light and pid not in expect:
+                    if (light or not expect) and pid not in expect:
                         runs = max(1500, engine.get_property(pid).budget["quick"]["runs"] // 10)
                     rc, kinds, tail = _run_check(pid, root, runs)
                     row["results"][pid] = rc
